@@ -195,19 +195,35 @@ def rule_r3(ctx):
            "serialize_node_device_configuration": ("configuration_id", ".configuration.name")}
     for fn, (fld, suffix) in ser.items():
         f = repo.func(f"onnx_ir.serde:{fn}")
-        recs = [q for q in f.params if any(isinstance(x, ast.Attribute) and norm(x) == q + suffix for x in own_nodes(f.node))]
-        src = (recs[0] if recs else "<record>") + suffix
         st = [n for n in own_nodes(f.node) if isinstance(n, ast.Assign) and isinstance(n.targets[0], ast.Attribute) and n.targets[0].attr == fld]
         ok = len(st) == 1
+        src = "<record>" + suffix
         if ok:
-            v = st[0].value
-            if isinstance(v, ast.Name):
-                defs = [n for n in own_nodes(f.node) if isinstance(n, ast.Assign) and norm(n.targets[0]) == v.id]
-                ok = len(defs) == 1 and norm(defs[0].value) == src
-            else:
-                ok = norm(v) == src
+            # the access path the stored expression denotes, read through locals that are bound once (`v = spec.value; n = v.name`)
+            path = _access_path(f, st[0].value)
+            root = path.split(".", 1)[0] if path else ""
+            ok = bool(path) and path.endswith(suffix) and path == root + suffix and root in f.params
+            src = (root if ok else "<record>") + suffix
         ctx.check("R3", f"{fn}: {fld} is derived from {src} at serialization time", ok, f, f.node,
                   f"{fld} is not taken from the referenced object's current name", how="data flow of the stored field")
+
+
+def _access_path(f, e, depth=0) -> str:
+    """`a.b.c` for an attribute chain whose root, followed through locals bound exactly once, is a name; '' otherwise."""
+    if depth > 6:
+        return ""
+    if isinstance(e, ast.Attribute):
+        base = _access_path(f, e.value, depth + 1)
+        return f"{base}.{e.attr}" if base else ""
+    if isinstance(e, ast.Name):
+        if e.id in f.params:
+            return e.id
+        defs = [n for n in own_nodes(f.node) if (isinstance(n, ast.Assign) and any(isinstance(t, ast.Name) and t.id == e.id for t in n.targets))
+                or (isinstance(n, (ast.AnnAssign, ast.AugAssign, ast.NamedExpr, ast.For)) and isinstance(getattr(n, "target", None), ast.Name) and n.target.id == e.id)]
+        if len(defs) == 1 and isinstance(defs[0], (ast.Assign, ast.AnnAssign)) and defs[0].value is not None:
+            return _access_path(f, defs[0].value, depth + 1)
+        return ""
+    return ""
 
 
 def rule_r4(ctx):
